@@ -53,6 +53,19 @@ Arguments TChangeSuspectToDown {Id}. Arguments TPeriodicAnnounce {Id}.
 Arguments TPeriodicAnnounceDown {Id}. Arguments TPeriodicGossip {Id}.
 Arguments TRemoveDown {Id}.
 
+(* Timer::seq of src/runtime.rs: the tie-break of Timer's PartialOrd / Ord (timers that fall due at
+   the same instant are delivered in this order) *)
+Definition timer_seq {Id : Type} (t : timer Id) : N :=
+  match t with
+  | TSendIndirectProbe _ _ => 0
+  | TProbeRandomMember _ => 1
+  | TChangeSuspectToDown _ _ _ => 2
+  | TPeriodicAnnounce _ => 3
+  | TPeriodicGossip _ => 4
+  | TRemoveDown _ => 5
+  | TPeriodicAnnounceDown _ => 6
+  end.
+
 Inductive notification (Id : Type) :=
 | NMemberUp (i : Id) | NMemberDown (i : Id) | NRename (old new : Id)
 | NActive | NIdle | NDefunct | NRejoin (i : Id).
